@@ -1,6 +1,7 @@
 SPECIFICATION QuickSpec
 CONSTANTS
  DevChoices <- NoDev
+INVARIANT FamilyInDomain
 INVARIANT ErrOK
 INVARIANT MolListUnchanged
 INVARIANT Correct
